@@ -46,6 +46,10 @@ pub struct QCase {
     /// None = unbounded
     pub cap: Option<usize>,
     pub via_builder: bool,
+    /// the wrapped sink behaves like cadence's own buffered sinks after a panic inside `emit`: its
+    /// lock is poisoned, so a later `flush()` panics too (only in cases whose programs never flush)
+    #[serde(default)]
+    pub poison: bool,
     pub handler: bool,
     pub plan: Vec<SinkOutcome>,
     pub n_gates: usize,
@@ -80,6 +84,8 @@ enum Ev {
     SinkExit { k: usize, outcome: SinkOutcome, step: u64 },
     Handler { kind: String, msg: String, task: usize },
     SinkDrop,
+    /// the poisoned wrapped sink's flush() panicked (on `task`)
+    FlushPanic { task: usize },
 }
 
 #[derive(Clone, Debug)]
@@ -118,6 +124,8 @@ struct Shared {
     plan: Vec<SinkOutcome>,
     invocations: AtomicUsize,
     sink_drops: AtomicUsize,
+    poison: bool,
+    poisoned: std::sync::atomic::AtomicBool,
 }
 
 struct ScriptedSink {
@@ -141,6 +149,22 @@ impl Drop for ExitGuard<'_> {
 impl MetricSink for ScriptedSink {
     fn flush(&self) -> io::Result<()> {
         kernel::event(|| "wrapped.flush".to_string(), &[0x74]);
+        if self.sh.poison && self.sh.poisoned.load(O::SeqCst) {
+            // what `self.buffer.lock().unwrap()` does after a panic under the lock. After eight
+            // of them in a row the point is made (see the judge) and the sink recovers, so that
+            // the run comes to rest.
+            let n = {
+                let mut l = self.sh.log.lock().unwrap();
+                let n = l.iter().filter(|e| matches!(e, Ev::FlushPanic { .. })).count();
+                if n < 8 {
+                    l.push(Ev::FlushPanic { task: kernel::current_task().unwrap_or(usize::MAX) });
+                }
+                n
+            };
+            if n < 8 {
+                resume_unwind(Box::new("injected panic#flush (the wrapped sink's lock is poisoned by an earlier panic)".to_string()));
+            }
+        }
         self.flush_inner()
     }
 
@@ -191,6 +215,7 @@ impl MetricSink for ScriptedSink {
             }
             SinkOutcome::Panic => {
                 kernel::yield_now();
+                self.sh.poisoned.store(true, O::SeqCst);
                 resume_unwind(Box::new(format!("injected panic#{k}")));
             }
             SinkOutcome::Slow(j) => {
@@ -482,6 +507,8 @@ fn sim_main(case: QCase) -> Obs {
         plan: case.plan.clone(),
         invocations: AtomicUsize::new(0),
         sink_drops: AtomicUsize::new(0),
+        poison: case.poison,
+        poisoned: std::sync::atomic::AtomicBool::new(false),
     });
     kernel::set_label("construct");
     let sink = ScriptedSink { sh: sh.clone(), inner };
@@ -830,7 +857,9 @@ impl Engine for E3 {
             _ => [35, 20, 20, 15, 10],
         };
         let sched = SchedSpec::generate(&mut sch, &weights);
-        QCase { sched, cap, via_builder, handler, plan, n_gates, main_ops, producers, sampler, observer, final_drop, wrapped_buffered, sock_full, wide_strings: cfg.chance(1, 8) }
+        let flushes = main_ops.iter().chain(producers.iter().flatten()).any(|o| matches!(o, QOp::Flush { .. }));
+        let poison = !flushes && wrapped_buffered.is_none() && cfg.chance(1, 3);
+        QCase { sched, cap, via_builder, poison, handler, plan, n_gates, main_ops, producers, sampler, observer, final_drop, wrapped_buffered, sock_full, wide_strings: cfg.chance(1, 8) }
     }
 
     fn pin_schedule(case: &QCase, o: &Outcome) -> QCase {
@@ -854,6 +883,17 @@ impl Engine for E3 {
         out.schedule_hash = hash_schedule(&r.schedule);
         out.schedule = r.schedule.clone();
         if let Some(e) = &r.error {
+            // A run that does not come to rest is normally a harness error. One shape is a verdict:
+            // every handle is gone (main sits in its final settling wait) and background threads
+            // keep being started although there is nothing left for them to do - more of them than
+            // there were metrics, and each restart of a correct worker consumes one.
+            let total_emits = case.plan.len();
+            let anon = r.tasks.iter().filter(|t| t.anon).count();
+            let main_settling = r.tasks.first().map(|t| t.label == "settle: final").unwrap_or(false);
+            if e.contains("step cap") && main_settling && anon > total_emits + 3 {
+                out.violate(&["C09"], "queue.worker-respawn-loop", format!("after the last handle was dropped {anon} background threads were started for {total_emits} metrics and the run never came to rest: the worker is restarted again and again with nothing left to do ({e})"));
+                return out;
+            }
             out.harness_error = Some(e.clone());
             return out;
         }
@@ -913,6 +953,11 @@ impl Engine for E3 {
         if case.handler {
             let mut c = case.clone();
             c.handler = false;
+            v.push(c);
+        }
+        if case.poison {
+            let mut c = case.clone();
+            c.poison = false;
             v.push(c);
         }
         if case.via_builder {
@@ -1081,6 +1126,7 @@ fn judge(case: &QCase, main: &Option<Obs>, end_tasks: &[TaskInfo], out: &mut Out
             }
             Ev::Handler { .. } => {}
             Ev::SinkDrop => sink_drops += 1,
+            Ev::FlushPanic { .. } => {}
         }
     }
     // accepted strings in channel-acceptance order
@@ -1427,6 +1473,20 @@ fn judge(case: &QCase, main: &Option<Obs>, end_tasks: &[TaskInfo], out: &mut Out
         out.probe("rendezvous_accepted_and_delivered");
     }
 
+    // a wrapped sink whose flush() panics (poisoned lock): nobody asked for a flush in these cases,
+    // so a correct sink never gets there; one that flushes the wrapped sink on its own when it
+    // stops may meet the panic once - but eight times in a row on background threads means the
+    // worker is restarted again and again with nothing left to do, and with a sink that stays
+    // poisoned it would never terminate
+    {
+        let fp: Vec<usize> = obs.log.iter().filter_map(|e| if let Ev::FlushPanic { task } = e { Some(*task) } else { None }).collect();
+        if !fp.is_empty() {
+            out.probe("poisoned_flush_reached");
+        }
+        if fp.len() >= 8 {
+            out.violate(&["C09", "C11"], "queue.worker-respawn-loop", format!("the wrapped sink's flush() was called and panicked {} times in a row on background tasks {:?}: the worker is restarted again and again with nothing left to do and would never terminate", fp.len(), fp));
+        }
+    }
     // ---- C09: after the last drop the worker terminates and the wrapped sink is dropped ----
     if obs.all_dropped {
         let workers_alive: Vec<&TaskInfo> = obs.final_tasks.iter().filter(|t| t.anon && t.state != TState::Finished).collect();
@@ -1685,7 +1745,7 @@ fn judge(case: &QCase, main: &Option<Obs>, end_tasks: &[TaskInfo], out: &mut Out
                         }
                     }
                 }
-                Ev::SinkDrop => {}
+                Ev::SinkDrop | Ev::FlushPanic { .. } => {}
             }
             i += 1;
         }
